@@ -32,6 +32,10 @@ TABLE = sorted({2 ** a * 3 ** b for a in range(25) for b in range(15)})
 B_LIMIT = max(t for t in TABLE if t < 3 ** 15)          # 14155776: below it every smooth number is in the table
 
 
+def f_mod():
+    return F()
+
+
 def F():
     from ibldsp import fourier
     return fourier
@@ -50,6 +54,7 @@ class Cases:
         self.dist = {}
         self.nontrivial = set()
         self.evals = 0
+        self.seen9 = set()
 
     def add(self, inp, out, desc):
         self.inp.append([int(v) for v in inp])
@@ -152,14 +157,26 @@ def direct_rows(xb, wb):
     return np.stack([direct_full(xb[i], wb[i]) for i in range(rows)])
 
 
-def conv_check(ctx, cs, x, w, tag, model=True, dtype="float64", wdtype=None, noncontig=False):
-    """x: int array (..., nsx); w: int array (..., nsw) broadcastable on the leading axes."""
+DT_CODE = {"float32": 0, "float64": 1}
+
+
+def conv_operand(a, dtype, den, noncontig):
+    """integer array a -> a/den in the requested dtype (den > 1 only with float dtypes; dyadic, hence exact)"""
+    if den == 1:
+        return as_dtype(a, dtype, noncontig)
+    return as_dtype(np.asarray(a, dtype=np.float64) / den, dtype, noncontig)
+
+
+def conv_check(ctx, cs, x, w, tag, model=True, dtype="float64", wdtype=None, noncontig=False, xden=1, wden=1):
+    """x: int array (..., nsx); w: int array (..., nsw) broadcastable on the leading axes.  The operands passed
+    to the implementation are x/xden and w/wden (dyadic denominators: exact), the result is compared after
+    multiplication by xden*wden with the exact integer convolution of x and w."""
     f = F()
     nsx, nsw = x.shape[-1], w.shape[-1]
     wdtype = wdtype or dtype
     tol = 1e-4 if "float32" in (dtype, wdtype) else TOL          # single precision transform for float32 data
     d = {"op": "convolve", "x": x.tolist(), "w": w.tolist(), "kind": tag, "dtype": dtype, "wdtype": wdtype,
-         "noncontig": noncontig}
+         "noncontig": noncontig, "xden": xden, "wden": wden}
     tags = {"op": "convolve", "nsx_plus_nsw_pow3": int(f_is_pow3(smooth_ge(nsx + nsw)))}
     lead = np.broadcast_shapes(x.shape[:-1], w.shape[:-1])
     xb = np.broadcast_to(x, lead + (nsx,)).reshape(-1, nsx)
@@ -167,11 +184,17 @@ def conv_check(ctx, cs, x, w, tag, model=True, dtype="float64", wdtype=None, non
     res = {}
     for mode in ("full", "same"):
         try:
-            c = f.convolve(as_dtype(x, dtype, noncontig), as_dtype(w, wdtype, noncontig), mode=mode)
+            c = f.convolve(conv_operand(x, dtype, xden, noncontig), conv_operand(w, wdtype, wden, noncontig), mode=mode)
         except Exception as e:
             ctx.fail("convolve(mode=%s) raised %r" % (mode, e), d, dict(tags, kind="exception", mode=mode))
             return
         c = np.asarray(c)
+        exp_dt = "float32" if (dtype, wdtype) == ("float32", "float32") else "float64"     # = model op 9
+        if str(c.dtype) != exp_dt:
+            ctx.fail("convolve(%s, %s) returned dtype %s; the result is computed in the promoted type %s"
+                     % (dtype, wdtype, c.dtype, exp_dt), d, dict(tags, kind="dtype", mode=mode))
+            return
+        c = c.astype(np.float64) * (xden * wden)
         explen = nsx + nsw if mode == "full" else nsx
         if c.shape != lead + (explen,):
             ctx.fail("convolve(mode=%s) returned shape %s, expected %s" % (mode, c.shape, lead + (explen,)),
@@ -204,6 +227,10 @@ def conv_check(ctx, cs, x, w, tag, model=True, dtype="float64", wdtype=None, non
     if nsw > nsx:
         cs.count("convolve_nsw_gt_nsx")
     cs.nontrivial.add(("conv", nsx, nsw, tag))
+    key9 = (DT_CODE.get(dtype, 2), DT_CODE.get(wdtype, 2))
+    if key9 not in cs.seen9:
+        cs.seen9.add(key9)
+        cs.add([9, key9[0], key9[1]], [DT_CODE[exp_dt]], {"op": "convolve-dtype", "dtype": dtype, "wdtype": wdtype})
     if model:
         for i in range(xb.shape[0]):
             cs.add([2, nsx, nsw] + xb[i].tolist() + wb[i].tolist(),
@@ -293,6 +320,46 @@ def part_convolve(ctx, cs):
         w = rand_ints(rng, nsw, lo, 9)
         conv_check(ctx, cs, x, w, "dtype-%s" % dt, dtype=dt, wdtype=wdt, noncontig=(k % 3 == 0))
         cs.count("convolve_noncontig" if k % 3 == 0 else "convolve_contig_dtype")
+    # (f) dtype promotion: an integer-dtype (or float32) operand with a FRACTIONAL operand of another dtype, both
+    #     ways round (raw int16 samples x boxcar-mean / dyadic kernels; fractional signal x integer kernel)
+    INTS = ["int16", "int32", "int64", "uint8", "int8"]
+    for k in range(90 if thorough else 40):
+        nsx, nsw = rng.choice([(rng.randrange(1, 30), rng.randrange(1, 30)), (13, 14), (20, 7), (3, 6), (1, 1), (2, 1)])
+        idt = INTS[k % len(INTS)]
+        fdt = rng.choice(["float64", "float64", "float32"])
+        den = rng.choice([2, 4, 8, 16])
+        lo = 0 if idt == "uint8" else -9
+        sx = rng.choice([(nsx,), (2, nsx)])
+        if k % 2 == 0:      # integer signal, fractional kernel
+            conv_check(ctx, cs, rand_ints(rng, int(np.prod(sx)), lo, 9).reshape(sx), rand_ints(rng, nsw, -9, 9),
+                       "int-signal-frac-kernel", dtype=idt, wdtype=fdt, wden=den, noncontig=(k % 5 == 0))
+        else:               # fractional signal, integer kernel
+            conv_check(ctx, cs, rand_ints(rng, int(np.prod(sx)), -9, 9).reshape(sx), rand_ints(rng, nsw, lo, 9),
+                       "frac-signal-int-kernel", dtype=fdt, wdtype=idt, xden=den, noncontig=(k % 5 == 0))
+    for k in range(30 if thorough else 12):
+        # textbook kernels (hanning, boxcar mean, random) in float64 against np.convolve, integer-dtype signals
+        nsx, nsw = rng.randrange(2, 60), rng.randrange(2, 26)
+        idt = INTS[k % len(INTS)]
+        xs = rand_ints(rng, nsx, 0 if idt == "uint8" else -100, 100).astype(idt)
+        wk = [np.hanning(nsw), np.ones(nsw) / nsw, np.array([rng.uniform(-1, 1) for _ in range(nsw)])][k % 3]
+        d = {"op": "convolve-float-kernel", "x": xs.tolist(), "xdtype": idt, "w": wk.tolist()}
+        ref = np.convolve(xs.astype(np.float64), wk)
+        first = (nsw - 1) // 2
+        try:
+            cf = np.asarray(f_mod().convolve(xs, wk, mode="full"))
+            csame = np.asarray(f_mod().convolve(xs, wk, mode="same"))
+        except Exception as e:
+            ctx.fail("convolve(integer signal, float kernel) raised %r" % (e,), d, {"op": "convolve", "kind": "exception"})
+            continue
+        tolv = TOL * max(1.0, float(np.abs(xs.astype(float)).sum()))
+        if cf.shape != (nsx + nsw,) or np.max(np.abs(cf[:-1] - ref)) > tolv or abs(cf[-1]) > tolv:
+            ctx.fail("convolve 'full' of an integer-dtype signal with a float kernel differs from np.convolve in float64",
+                     d, {"op": "convolve", "kind": "values", "mode": "full", "mixed": "int-x-float"})
+        elif csame.shape != (nsx,) or np.max(np.abs(csame - ref[first:first + nsx])) > tolv:
+            ctx.fail("convolve 'same' of an integer-dtype signal with a float kernel differs from np.convolve in float64",
+                     d, {"op": "convolve", "kind": "values", "mode": "same", "mixed": "int-x-float"})
+        cs.evals += 2
+        cs.count("convolve_int_signal_float_kernel")
 
 
 # ---------------------------------------------------------------------------
@@ -775,6 +842,130 @@ def part_cosine(ctx, cs):
     ctx.coverage["cosine_model_evaluations_extracted"] = len(inputs)
 
 
+
+# ---------------------------------------------------------------------------
+# call sequences: every function is stateless — the same call must give the same (correct) answer whatever was
+# called before; each function is called repeatedly with all arguments but one held fixed
+# ---------------------------------------------------------------------------
+def textbook_response(ns, si, b0, b1):
+    """high-pass cosine-taper response at the DFT bin frequencies k/(ns*si), expanded to ns bins (independent of the model)"""
+    fk = np.arange(ns // 2 + 1) / (ns * si)
+    t = np.clip((fk - b0) / (b1 - b0), 0.0, 1.0)
+    h = (1.0 - np.cos(np.pi * t)) / 2.0
+    return np.concatenate((h, h[1:(ns + 1) // 2][::-1]))
+
+
+SEQ_SI = [(1, 2), (1, 1), (2, 1), (5, 2), (1, 30000)]
+
+
+def run_filter_sequence(f, ns, ts, bd, b, calls, report):
+    """calls: list of [typ, sp, sq]; runs them in order; report(kind, what, index) on every failed clause"""
+    bf = [v / bd for v in b]
+    got = {}
+    scale = max(1.0, float(np.abs(ts).sum()))
+    for i, (typ, sp, sq) in enumerate(calls):
+        si = sp / sq
+        fn, bb = {"lp": (f.lp, bf[0:2]), "hp": (f.hp, bf[0:2]), "bp": (f.bp, bf)}[typ]
+        try:
+            o = np.asarray(fn(ts.copy(), si, bb))
+        except Exception as e:
+            report("exception", "%s raised %r" % (typ, e), i)
+            return
+        H1 = textbook_response(ns, si, bf[0], bf[1])
+        H = {"hp": H1, "lp": 1.0 - H1, "bp": H1 * (1.0 - textbook_response(ns, si, bf[2], bf[3]))}[typ]
+        ref = np.real(np.fft.ifft(np.fft.fft(ts) * H))
+        if o.shape != ref.shape or np.max(np.abs(o - ref)) > TOL * scale:
+            report("response", "%s(si=%s/%s) differs from the cosine-taper response sampled at k/(ns*si) "
+                   "(call %d of a sequence varying si)" % (typ, sp, sq, i), i)
+            return
+        got[(typ, sp, sq)] = o
+        if (("lp", sp, sq) in got) and (("hp", sp, sq) in got) and typ in ("lp", "hp"):
+            if np.max(np.abs(got[("lp", sp, sq)] + got[("hp", sp, sq)] - ts)) > TOL * scale:
+                report("lp+hp", "lp + hp (si=%s/%s) is not the identity within a sequence varying si" % (sp, sq), i)
+                return
+
+
+def part_sequences(ctx, cs):
+    f, u, rng = F(), U(), ctx.rng
+    # (1) filters: same (typ, ns, corners), different sampling intervals, interleaved and repeated
+    for key in range(14 if ctx.thorough() else 7):
+        ns = rng.choice([8, 9, 16, 27, 30, 64, 81, 100])
+        bd = 20
+        b = sorted(rng.sample(range(0, 12), 4))
+        ts = rand_ints(rng, ns).astype(np.float64)
+        calls = [[typ, sp, sq] for (sp, sq) in SEQ_SI for typ in ("lp", "hp", "bp")]
+        rng.shuffle(calls)
+        calls += [list(c) for c in rng.sample(calls, 5)]            # repeats of earlier calls
+        d = {"op": "filter-sequence", "ns": ns, "ts": ts.astype(int).tolist(), "bd": bd, "b": b}
+
+        def report(kind, what, i, d=d, calls=calls):
+            ctx.fail(what, dict(d, sequence=calls[:i + 1]), {"op": "filter", "kind": "sequence-" + kind})
+        run_filter_sequence(f, ns, ts, bd, b, calls, report)
+        cs.evals += len(calls)
+        cs.count("filter_sequence_calls", len(calls))
+        cs.nontrivial.add(("fseq", key))
+    # (2) the other helpers: one argument varied, the others held fixed, each answer checked
+    for _ in range(6 if ctx.thorough() else 3):
+        ns = rng.randrange(3, 40)
+        d = {"op": "sequence", "ns": ns}
+        try:
+            for si in (1, 0.5, 2.5, 1 / 30000, 1):
+                for one_sided in (False, True, False):
+                    fs = np.asarray(f.fscale(ns, si, one_sided=one_sided))
+                    exp = np.array([i if i <= ns // 2 else i - ns for i in range(ns // 2 + 1 if one_sided else ns)]) / (ns * si)
+                    if fs.shape != exp.shape or not np.allclose(fs, exp, rtol=1e-12, atol=0):
+                        ctx.fail("fscale(ns=%d, si=%r, one_sided=%r) wrong within a call sequence" % (ns, si, one_sided),
+                                 dict(d, fn="fscale", si=si, one_sided=one_sided), {"op": "fscale", "kind": "sequence"})
+            nsw = rng.randrange(1, 12)
+            x1, x2 = rand_ints(rng, ns), rand_ints(rng, ns)
+            w1, w2 = rand_ints(rng, nsw), rand_ints(rng, nsw)
+            for (xx, ww) in ((x1, w1), (x1, w2), (x2, w2), (x2, w1), (x1, w1)):
+                for mode in ("full", "same", "full"):
+                    c = np.asarray(f.convolve(xx.astype(float), ww.astype(float), mode=mode))
+                    full = direct_full(xx, ww)
+                    exp = np.append(full, 0) if mode == "full" else full[(nsw - 1) // 2:(nsw - 1) // 2 + ns]
+                    if c.shape != exp.shape or np.max(np.abs(c - exp)) > TOL * max(1.0, float(np.abs(xx).sum() * np.abs(ww).max())):
+                        ctx.fail("convolve wrong within a call sequence (same lengths, other operand varied)",
+                                 {"op": "convolve", "x": xx.tolist(), "w": ww.tolist(), "kind": "sequence"},
+                                 {"op": "convolve", "kind": "sequence"})
+            shp = (rng.randrange(2, 7), rng.randrange(2, 7))
+            G1, G2 = gauss(rng, shp), gauss(rng, shp)
+            for G in (G1, G2, G1):
+                for axis in (0, 1, 0):
+                    n = shp[axis]
+                    r = np.asarray(f.freduce(G, axis=axis))
+                    if not np.array_equal(r, np.take(G, np.arange(n // 2 + 1), axis=axis)):
+                        ctx.fail("freduce wrong within a call sequence", dict(d, fn="freduce", shape=list(shp), axis=axis),
+                                 {"op": "freduce", "kind": "sequence"})
+                    for nsx in (2 * (n // 2 + 1) - 2, 2 * (n // 2 + 1) - 1):
+                        e = np.asarray(f.fexpand(r, nsx, axis=axis))
+                        tail = np.conj(np.flip(np.take(r, np.arange(1, (nsx + 1) // 2), axis=axis), axis=axis))
+                        if not np.array_equal(e, np.concatenate((r, tail), axis=axis)):
+                            ctx.fail("fexpand wrong within a call sequence", dict(d, fn="fexpand", shape=list(shp), axis=axis, nsx=nsx),
+                                     {"op": "fexpand", "kind": "sequence"})
+                    X = np.asarray(f.dft(G, axis=axis))
+                    if X.shape != G.shape or np.max(np.abs(X - np.fft.fft(G, axis=axis))) > TOL * float(np.abs(G).sum()):
+                        ctx.fail("dft wrong within a call sequence", dict(d, fn="dft", shape=list(shp), axis=axis),
+                                 {"op": "dft", "kind": "sequence"})
+            xs1, xs2 = np.linspace(-3, 7, 23), np.linspace(0, 4, 23)
+            for (bb, xs) in (([0, 4], xs1), ([0, 4], xs2), ([1, 2], xs2), ([1, 2], xs1), ([0, 4], xs1)):
+                fun = u.fcn_cosine(bb)
+                for _rep in range(2):
+                    y = np.asarray(fun(xs.copy()))
+                    exp = (1 - np.cos(np.clip((xs - bb[0]) / (bb[1] - bb[0]), 0, 1) * np.pi)) / 2
+                    if y.shape != exp.shape or np.max(np.abs(y - exp)) > 1e-12:
+                        ctx.fail("fcn_cosine wrong within a call sequence", {"op": "fcn_cosine", "bounds": bb, "x": xs.tolist()},
+                                 {"op": "fcn_cosine", "kind": "sequence"})
+            for n in (ns, 3 * ns, ns, 1000 + ns, ns):
+                if int(f.ns_optim_fft(n)) != smooth_ge(n):
+                    ctx.fail("ns_optim_fft wrong within a call sequence", {"op": "ns_optim_fft", "n": n},
+                             {"op": "ns_optim_fft", "kind": "sequence"})
+        except Exception as e:
+            ctx.fail("a helper raised %r within a call sequence" % (e,), d, {"op": "sequence", "kind": "exception"})
+        cs.evals += 100
+        cs.count("helper_sequences")
+
+
 # ---------------------------------------------------------------------------
 def run(ctx):
     common.proof_obligations(ctx, whitelist=sorted(common.STDLIB_AXIOMS))
@@ -785,6 +976,7 @@ def run(ctx):
     part_half(ctx, cs)
     part_dft(ctx, cs)
     common.correspondence(ctx, PROP, HEADER, cs.inp, cs.out, lambda i: cs.desc[i], n_kernel=80, shard=40)
+    part_sequences(ctx, cs)          # before the single-call filter cases: nothing may depend on call history
     part_filters(ctx, cs)
     part_cosine(ctx, cs)
     cs.dist["model_cases_integer_exact"] = len(cs.inp)
@@ -838,15 +1030,23 @@ def replay(ctx, data):
             for mode in ("full", "same"):
                 try:
                     print("implementation %s:" % mode,
-                          np.asarray(f.convolve(as_dtype(x, inp.get("dtype", "float64"), inp.get("noncontig", False)),
-                                                as_dtype(w, inp.get("wdtype", "float64"), inp.get("noncontig", False)),
+                          np.asarray(f.convolve(conv_operand(x, inp.get("dtype", "float64"), inp.get("xden", 1), inp.get("noncontig", False)),
+                                                conv_operand(w, inp.get("wdtype", "float64"), inp.get("wden", 1), inp.get("noncontig", False)),
                                                 mode=mode)).round(6).tolist()[:40])
                 except Exception as e:
                     print("implementation %s raised %r" % (mode, e))
             if x.ndim == 1 and w.ndim == 1:
                 print("direct convolution:", direct_full(x, w).tolist()[:40])
             conv_check(sub, cs, x, w, inp.get("kind", "replay"), dtype=inp.get("dtype", "float64"),
-                       wdtype=inp.get("wdtype"), noncontig=inp.get("noncontig", False))
+                       wdtype=inp.get("wdtype"), noncontig=inp.get("noncontig", False),
+                       xden=inp.get("xden", 1), wden=inp.get("wden", 1))
+        elif op == "convolve-float-kernel":
+            xs, wk = np.array(inp["x"], dtype=inp["xdtype"]), np.array(inp["w"], dtype=np.float64)
+            ref = np.convolve(xs.astype(np.float64), wk)
+            cf = np.asarray(f.convolve(xs, wk, mode="full"))
+            print("implementation full:", cf[:12], "\nnp.convolve float64:", ref[:12])
+            if cf.shape != (len(xs) + len(wk),) or np.max(np.abs(cf[:-1] - ref)) > TOL * max(1.0, float(np.abs(xs.astype(float)).sum())):
+                sub.fail("differs from np.convolve", inp)
         elif op == "fscale":
             fs = f.fscale(inp["ns"], inp["si"], one_sided=inp["one_sided"])
             print("implementation:", np.asarray(fs)[:20])
@@ -909,6 +1109,14 @@ def replay(ctx, data):
                 sub.fail("filter identities", inp)
             if max(errs.values()) > 1e-9:
                 sub.disagree("response", inp)
+        elif op == "filter-sequence":
+            ts = np.array(inp["ts"], dtype=float)
+
+            def report(kind, what, i):
+                print("call %d %s: %s" % (i, inp["sequence"][i], what))
+                sub.fail(what, inp)
+            run_filter_sequence(f, inp["ns"], ts, inp["bd"], inp["b"], inp["sequence"], report)
+            print("sequence of %d calls re-executed" % len(inp["sequence"]))
         elif op == "filter-negative-axis":
             ts = np.array(inp["ts"], dtype=float)
             o = np.asarray(f.lp(ts.copy(), inp["si"], inp["b"], axis=inp["axis"]))
